@@ -53,6 +53,8 @@ pub struct FamParams {
     pub n_inst: u8,
     /// number of main rows, 1..=3
     pub rows: u8,
+    /// added to the fixed coefficient of main row 0 ("same circuit, one fixed cell changed")
+    pub fx_tweak: u8,
 }
 
 impl Default for FamParams {
@@ -77,6 +79,7 @@ impl FamParams {
             phases: 1,
             n_inst: 1,
             rows: 1,
+            fx_tweak: 0,
         }
     }
     /// Everything on.
@@ -95,6 +98,7 @@ impl FamParams {
             phases,
             n_inst,
             rows: 3,
+            fx_tweak: 0,
         }
     }
     /// Short canonical name used in case keys.
@@ -114,6 +118,9 @@ impl FamParams {
             if on {
                 s.push(c);
             }
+        }
+        if self.fx_tweak != 0 {
+            s.push_str(&format!("-fx{}", self.fx_tweak));
         }
         format!("{s}-ph{}-in{}-r{}", self.phases, self.n_inst, self.rows)
     }
@@ -192,13 +199,18 @@ fn low_bits(x: &F, m: u64) -> u64 {
     (x.to_repr().as_ref()[0] as u64) % m
 }
 
+/// Fixed coefficient of main row `j`.
+pub fn fx_value(p: &FamParams, j: usize) -> F {
+    F::from(j as u64 + 2 + if j == 0 { p.fx_tweak as u64 } else { 0 })
+}
+
 /// Output of main row `j`.
 pub fn main_out(p: &FamParams, w: &FamWitness, j: usize) -> F {
     let (a, b) = (w.xs[j], w.ys[j]);
     if p.gate_deg == 0 {
         a + b
     } else {
-        fpow(a, p.gate_deg - 1) * b + F::from(j as u64 + 2) * a
+        fpow(a, p.gate_deg - 1) * b + fx_value(p, j) * a
     }
 }
 
@@ -503,7 +515,7 @@ impl<PL: FloorPlanner> Circuit<F> for Fam<PL> {
                         || "fx",
                         cfg.fx,
                         j,
-                        || Value::known(F::from(j as u64 + 2)),
+                        || Value::known(fx_value(p, j)),
                     )?;
                     ins.push(self.put(&mut region, "mn", "a", cfg.a, j, self.wv(|w| w.xs[j]))?);
                     self.put(&mut region, "mn", "b", cfg.b, j, self.wv(|w| w.ys[j]))?;
